@@ -22,11 +22,12 @@ from __future__ import annotations
 
 import ast
 import builtins
+import re
 import typing as t
 
 from . import astq
 from .cfg import cfg_of
-from .loader import AnalysisError, BuiltinClass, ClassInfo, FuncInfo, Module, Repo, dotted, norm, walk_no_nested
+from .loader import BuiltinClass, ClassInfo, FuncInfo, Module, Repo, dotted, norm, walk_no_nested
 
 # ---------------------------------------------------------------------
 # exception lattice
@@ -114,6 +115,8 @@ MODEL_DOC = {
     "to_bytes": "int.to_bytes(1, ...) raises OverflowError for values >= 256",
     "loads": "json.loads raises ValueError (JSONDecodeError)",
     "fromtimestamp": "datetime.fromtimestamp raises OverflowError / OSError / ValueError out of range",
+    "size": "<stream>.read(n) / bytearray(n) / bytes(n) convert n to a C ssize_t and allocate n bytes: OverflowError (or MemoryError) for an arbitrarily large n; modelled only where n provably flows, without an upper bound, from a text -> int conversion",
+    "rawio-dispatch": "io.RawIOBase.read(n) calls self.readall() for n < 0 and self.readinto(bytearray(n)) otherwise (CPython Modules/_io/iobase.c)",
 }
 
 
@@ -151,6 +154,9 @@ class Effects:
         # `if <guard>: raise` inside a handler is treated as dead when the rule has established that the guard is false
         # on every path from its entry points (set by the rule module together with a recorded obligation)
         self.dead_reraise_guards: set[str] = set()
+        # optional predicate (fi, call, size expression) -> bool: the size argument provably flows, unbounded, from a
+        # parsed client integer (set by the rule module once the call graph is known)
+        self.size_hook: t.Callable[[FuncInfo, ast.Call, ast.AST], bool] | None = None
         self.enum_classes = {c.fq for c in repo.all_classes() if any(b.fq.endswith("Enum") for b in repo.mro(c)[1:])}
 
     # -- per function facts ----------------------------------------------
@@ -202,6 +208,9 @@ class Effects:
                     add(n, "loads", "ValueError")
                 elif fq in self.enum_classes and n.args:
                     add(n, "enum", "ValueError")
+                elif fq in ("builtins.bytearray", "builtins.bytes") and len(n.args) == 1 and not n.keywords and not isinstance(n.args[0], ast.Constant):
+                    if self.size_hook is not None and self.size_hook(fi, n, n.args[0]):
+                        add(n, "size", "OverflowError")
                 elif isinstance(n.func, ast.Attribute):
                     m = n.func.attr
                     if m == "decode" and not (fq and fq.startswith("werkzeug.")):
@@ -221,6 +230,9 @@ class Effects:
                         add(n, "to_bytes", "OverflowError")
                     elif m in ("fromtimestamp", "utcfromtimestamp"):
                         add(n, "fromtimestamp", "OverflowError")
+                    elif m in ("read", "read1", "readline", "recv") and len(n.args) == 1 and not n.keywords and not isinstance(n.args[0], ast.Constant):
+                        if self.size_hook is not None and self.size_hook(fi, n, n.args[0]):
+                            add(n, "size", "OverflowError")
             elif isinstance(n, ast.Attribute) and n.attr == "port" and isinstance(n.ctx, ast.Load) and not astq.is_self_attr(n):
                 add(n, "port", "ValueError")
             elif isinstance(n, ast.Assign) and isinstance(n.targets[0], (ast.Tuple, ast.List)) and isinstance(n.value, ast.Call) and isinstance(n.value.func, ast.Attribute) and n.value.func.attr in ("split", "rsplit"):
@@ -312,12 +324,24 @@ class Effects:
                 o, w = self.repo.lookup(fi.cls, f.attr, after=fi.cls.fq)
                 return [w] if isinstance(w, FuncInfo) else []
             return []
+        if selfname and d.startswith(selfname + ".") and d.count(".") == 2 and fi.cls is not None:
+            # self.<property>.<method>(...): the classes the property's getter constructs (through package helpers)
+            _, attr, meth = d.split(".")
+            res = []
+            for c in self._attr_classes(fi.cls, attr):
+                for w in self._method_targets(c, meth):
+                    if w not in res:
+                        res.append(w)
+            if res:
+                return res
         if selfname and d.startswith(selfname + ".") and d.count(".") == 1 and fi.cls is not None:
             name = d.split(".", 1)[1]
             res = []
             o, w = self.repo.lookup(fi.cls, name)
             if isinstance(w, FuncInfo):
                 res.append(w)
+            elif name == "read":
+                res.extend(self._method_targets(fi.cls, name))
             elif isinstance(w, ast.AST) and not isinstance(w, ast.Call) and dotted(w) and isinstance(o, ClassInfo):
                 fqc = self.repo.resolve(o.module, dotted(w))
                 c = self.repo.try_cls(fqc) if fqc and fqc.startswith("werkzeug.") else None
@@ -377,6 +401,56 @@ class Effects:
             if isinstance(w, FuncInfo):
                 return [w]
         return []
+
+    def _method_targets(self, c: ClassInfo, meth: str) -> list[FuncInfo]:
+        o, w = self.repo.lookup(c, meth)
+        if isinstance(w, FuncInfo):
+            return [w]
+        if meth == "read" and any(getattr(k, "fq", "") in ("io.RawIOBase", "_io._RawIOBase") for k in self.repo.mro(c)):
+            # MODEL_DOC["rawio-dispatch"]
+            out = []
+            for nm in ("readall", "readinto"):
+                o2, w2 = self.repo.lookup(c, nm)
+                if isinstance(w2, FuncInfo):
+                    out.append(w2)
+            return out
+        return []
+
+    def _attr_classes(self, cls: ClassInfo, attr: str) -> list[ClassInfo]:
+        out: list[ClassInfo] = []
+        for g in self._getters(cls, attr):
+            if any(d.rsplit(".", 1)[-1] in ("property", "cached_property") for d in g.decorators):
+                for c in self._ret_classes(g, 0):
+                    if c not in out:
+                        out.append(c)
+        return out
+
+    def _ret_classes(self, g: FuncInfo, depth: int) -> list[ClassInfo]:
+        out: list[ClassInfo] = []
+        if depth > 3:
+            return out
+        li = g.module.local_imports(g.node)
+        for r in astq.returns_of(g.node):
+            v = r.value
+            while isinstance(v, ast.Call) and (dotted(v.func) or "").rsplit(".", 1)[-1] == "cast" and len(v.args) == 2:
+                v = v.args[1]
+            if not isinstance(v, ast.Call):
+                continue
+            d = dotted(v.func)
+            fq = self.repo.resolve(g.module, d, li) if d else None
+            if not fq or not fq.startswith("werkzeug."):
+                continue
+            c = self.repo.try_cls(fq)
+            if c is not None:
+                if c not in out:
+                    out.append(c)
+                continue
+            f2 = self.repo.try_func(fq)
+            if f2 is not None:
+                for c2 in self._ret_classes(f2, depth + 1):
+                    if c2 not in out:
+                        out.append(c2)
+        return out
 
     def _class_of_expr(self, fi: FuncInfo, v: ast.AST | None, li) -> ClassInfo | None:
         """class of the instance an expression evaluates to, for: ClassName(...), self.<attr holding a class>(...),
@@ -456,8 +530,7 @@ class Effects:
         return True
 
     # -- fix point ---------------------------------------------------------
-    def escapes(self, roots: list[FuncInfo]) -> dict[str, set[tuple[Site, str]]]:
-        """fq -> {(origin site, exception)} escaping that function, for everything reachable from roots."""
+    def reachable(self, roots: list[FuncInfo]) -> dict[str, FuncInfo]:
         reach: dict[str, FuncInfo] = {}
         stack = list(roots)
         while stack:
@@ -467,6 +540,12 @@ class Effects:
             reach[f.fq] = f
             for g, _ in self.callees(f):
                 stack.append(g)
+        self.reach = reach
+        return reach
+
+    def escapes(self, roots: list[FuncInfo]) -> dict[str, set[tuple[Site, str]]]:
+        """fq -> {(origin site, exception)} escaping that function, for everything reachable from roots."""
+        reach = self.reachable(roots)
         esc: dict[str, set[tuple[Site, str]]] = {fq: set() for fq in reach}
         for fq, f in reach.items():
             for s in self.sites(f):
@@ -507,3 +586,1201 @@ class Effects:
                 prev[g.fq] = f.fq
                 q.append(g)
         return [root.fq, "...", target]
+
+
+# =====================================================================
+# E5b: value origins (used by the C07 guard idioms and reviewed roles)
+#
+# A small abstract evaluator over *where a value comes from*: reaching definitions inside a function, tuple / list /
+# dict projections, parameter binding to the call sites that are reachable from the entry points, return values of
+# package helpers (context sensitive: a helper's parameter is bound to the argument of the call being followed), and
+# the canonical guard atoms that dominate the use (with a freshness check: no rebinding of a tested name between the
+# test and the use).  All answers are lower bounds / must-facts: "unknown" is always the weakest answer.
+
+INF = 10**9
+
+from .dataflow import ReachingDefs, bound_in_enclosing_comp  # noqa: E402
+from .fold import Folder, RegexConst, group_width, width  # noqa: E402
+from .guards import Aliases  # noqa: E402
+
+
+class Atom(t.NamedTuple):
+    op: str  # truthy | is | eq | in | lt
+    a: ast.AST
+    b: ast.AST | None
+    truth: bool
+    test: t.Any  # cfg Node
+    label: str
+    names: frozenset
+
+
+def _unwalrus(e: ast.AST) -> ast.AST:
+    return e.target if isinstance(e, ast.NamedExpr) else e
+
+
+def satoms(e: ast.AST, truth: bool) -> list[tuple[str, ast.AST, ast.AST | None, bool]]:
+    """structured canonical atoms of one condition atom: polarity folded into `truth`; > >= <= rewritten to <."""
+    while isinstance(e, ast.UnaryOp) and isinstance(e.op, ast.Not):
+        e, truth = e.operand, not truth
+    out: list[tuple[str, ast.AST, ast.AST | None, bool]] = []
+    if isinstance(e, ast.NamedExpr):
+        out.append(("truthy", e.target, None, truth))
+        out.append(("truthy", e.value, None, truth))
+        return out
+    if isinstance(e, ast.Compare):
+        if len(e.ops) > 1 and not truth:
+            return out  # a false chain says nothing about its links
+        left = e.left
+        for op, right in zip(e.ops, e.comparators):
+            a, b = _unwalrus(left), _unwalrus(right)
+            if isinstance(op, ast.Is):
+                out.append(("is", a, b, truth))
+            elif isinstance(op, ast.IsNot):
+                out.append(("is", a, b, not truth))
+            elif isinstance(op, ast.Eq):
+                out.append(("eq", a, b, truth))
+            elif isinstance(op, ast.NotEq):
+                out.append(("eq", a, b, not truth))
+            elif isinstance(op, ast.In):
+                out.append(("in", a, b, truth))
+            elif isinstance(op, ast.NotIn):
+                out.append(("in", a, b, not truth))
+            elif isinstance(op, ast.Lt):
+                out.append(("lt", a, b, truth))
+            elif isinstance(op, ast.Gt):
+                out.append(("lt", b, a, truth))
+            elif isinstance(op, ast.LtE):
+                out.append(("lt", b, a, not truth))
+            elif isinstance(op, ast.GtE):
+                out.append(("lt", a, b, not truth))
+            left = right
+        return out
+    out.append(("truthy", e, None, truth))
+    return out
+
+
+def _conjuncts(e: ast.AST, truth: bool) -> list[tuple[ast.AST, bool]]:
+    """atoms known from `e is truth`: an `and` that is true makes every operand true, an `or` that is false every operand false."""
+    while isinstance(e, ast.UnaryOp) and isinstance(e.op, ast.Not):
+        e, truth = e.operand, not truth
+    if isinstance(e, ast.BoolOp):
+        if (isinstance(e.op, ast.And) and truth) or (isinstance(e.op, ast.Or) and not truth):
+            out: list[tuple[ast.AST, bool]] = []
+            for v in e.values:
+                out.extend(_conjuncts(v, truth))
+            return out
+        return []
+    return [(e, truth)]
+
+
+def const_int(e: ast.AST | None) -> int | None:
+    if isinstance(e, ast.Constant) and isinstance(e.value, int) and not isinstance(e.value, bool):
+        return e.value
+    if isinstance(e, ast.UnaryOp) and isinstance(e.op, ast.USub) and isinstance(e.operand, ast.Constant) and isinstance(e.operand.value, int) and not isinstance(e.operand.value, bool):
+        return -e.operand.value
+    return None
+
+
+def const_text(e: ast.AST | None) -> str | bytes | None:
+    if isinstance(e, ast.Constant) and isinstance(e.value, (str, bytes)):
+        return e.value
+    return None
+
+
+_CASE_METHODS = {"lower", "upper", "casefold", "swapcase", "title", "capitalize"}
+_NO_NEW_ELEMENTS = {"pop", "get", "clear", "remove", "discard", "popitem", "copy", "keys", "items", "values", "index", "count", "sort", "reverse", "join", "__contains__", "__len__"}
+
+
+class St(t.NamedTuple):
+    cs: tuple = ()  # call strings: ((caller fi, call node, callee fi), ...)
+    seen: frozenset = frozenset()
+    hops: int = 0
+
+
+class Flow:
+    def __init__(self, eff: "Effects", folder: Folder, entry_fqs: set[str]):
+        self.eff = eff
+        self.repo = eff.repo
+        self.folder = folder
+        self.entry_fqs = entry_fqs
+        self._rd: dict[str, ReachingDefs] = {}
+        self._al: dict[str, Aliases] = {}
+        self._atoms: dict[tuple[str, int], list[Atom]] = {}
+        self._callers: dict[str, list[tuple[FuncInfo, ast.AST, str]]] | None = None
+        self.cur: tuple[Site, str] | None = None  # the (site, exception) being discharged: restricts callers to escaping chains
+        self.site_ast: ast.AST | None = None  # its AST node: the conditional expressions around it count as guards
+        self._live: dict[tuple[int, str], set[str]] = {}
+
+    # -- per function caches ---------------------------------------------
+    def cfg(self, fi: FuncInfo):
+        return cfg_of(fi)
+
+    def rd(self, fi: FuncInfo) -> ReachingDefs:
+        if fi.fq not in self._rd:
+            self._rd[fi.fq] = ReachingDefs(cfg_of(fi), fi.params)
+        return self._rd[fi.fq]
+
+    def al(self, fi: FuncInfo) -> Aliases:
+        if fi.fq not in self._al:
+            self._al[fi.fq] = Aliases(cfg_of(fi), self.rd(fi))
+        return self._al[fi.fq]
+
+    def node(self, fi: FuncInfo, a: ast.AST):
+        return cfg_of(fi).node_of(a)
+
+    # -- call graph ------------------------------------------------------
+    def callers(self, g: FuncInfo) -> list[tuple[FuncInfo, ast.AST, str]]:
+        """(caller, node, kind) with kind call | callback | attr, over the functions reachable from the entry points;
+        while a site is being discharged only call sites on a chain along which its exception escapes to an entry."""
+        if self._callers is None:
+            idx: dict[str, list[tuple[FuncInfo, ast.AST, str]]] = {}
+            for f in self.eff.reach.values():
+                for h, n in self.eff.callees(f):
+                    kind = "attr"
+                    if isinstance(n, ast.Call):
+                        fn_last = (dotted(n.func) or (n.func.attr if isinstance(n.func, ast.Attribute) else "")).rsplit(".", 1)[-1]
+                        as_arg = any((dotted(a) or "").rsplit(".", 1)[-1] == h.name for a in list(n.args) + [k.value for k in n.keywords])
+                        kind = "callback" if as_arg and fn_last != h.name and not (h.name in ("__init__", "__new__")) else "call"
+                    idx.setdefault(h.fq, []).append((f, n, kind))
+            self._callers = idx
+        res = self._callers.get(g.fq, [])
+        if self.cur is not None:
+            live = self.live(*self.cur)
+            s, e = self.cur
+            res = [(f, n, k) for f, n, k in res if f.fq in live and self.eff.uncaught(f, n, e)]
+        return res
+
+    def live(self, s: "Site", e: str) -> set[str]:
+        """functions on some chain entry -> ... -> site along which e escapes all the way to the entry."""
+        key = (id(s.node), e)
+        if key in self._live:
+            return self._live[key]
+        esc = self.eff._esc
+        carrying = {fq for fq, v in esc.items() if (s, e) in v}
+        live = {fq for fq in carrying if fq in self.entry_fqs}
+        changed = True
+        while changed:
+            changed = False
+            for fq in list(live):
+                f = self.eff.reach[fq]
+                for h, n in self.eff.callees(f):
+                    if h.fq in carrying and h.fq not in live and self.eff.uncaught(f, n, e):
+                        live.add(h.fq)
+                        changed = True
+        self._live[key] = live
+        return live
+
+    def bind(self, g: FuncInfo, call: ast.AST, pname: str):
+        """argument expression bound to parameter pname of g at this call: ('arg', expr) | ('default', expr) | None."""
+        if not isinstance(call, ast.Call):
+            return None
+        a = g.node.args  # type: ignore[attr-defined]
+        pos = [x.arg for x in a.posonlyargs + a.args]
+        static = any(d.rsplit(".", 1)[-1] == "staticmethod" for d in g.decorators)
+        off = 1 if (g.cls is not None and not static) else 0
+        if any(kw.arg is None for kw in call.keywords):
+            return None
+        for kw in call.keywords:
+            if kw.arg == pname:
+                return ("arg", kw.value)
+        if pname in pos:
+            i = pos.index(pname) - off
+            if i < 0:
+                return None
+            if any(isinstance(x, ast.Starred) for x in call.args[: i + 1]):
+                return None
+            if i < len(call.args):
+                return ("arg", call.args[i])
+            j = pos.index(pname) - (len(pos) - len(a.defaults))
+            if j >= 0:
+                return ("default", a.defaults[j])
+            return None
+        kwo = [x.arg for x in a.kwonlyargs]
+        if pname in kwo:
+            d = a.kw_defaults[kwo.index(pname)]
+            return ("default", d) if d is not None else None
+        return None
+
+    def param_sources(self, fi: FuncInfo, pname: str, st: St):
+        """[(fi', expr, node', st')] the parameter may be bound to, or None when unknown."""
+        if fi.params and fi.cls is not None and pname == fi.params[0] and not any(d.rsplit(".", 1)[-1] == "staticmethod" for d in fi.decorators):
+            return None
+        if st.cs and st.cs[-1][2] is fi:
+            cf, call, _ = st.cs[-1]
+            b = self.bind(fi, call, pname)
+            if b is None:
+                return None
+            st2 = st._replace(cs=st.cs[:-1])
+            if b[0] == "default":
+                return [(fi, b[1], cfg_of(fi).entry, st2)] if isinstance(b[1], ast.Constant) else None
+            return [(cf, b[1], cfg_of(cf).node_of(call), st2)]
+        if fi.fq in self.entry_fqs or st.hops >= 5:
+            return None
+        cal = self.callers(fi)
+        if not cal:
+            return None
+        out = []
+        for f, n, kind in cal:
+            if kind != "call":
+                return None
+            b = self.bind(fi, n, pname)
+            if b is None:
+                return None
+            st2 = St((), st.seen, st.hops + 1)
+            if b[0] == "default":
+                if not isinstance(b[1], ast.Constant):
+                    return None
+                out.append((fi, b[1], cfg_of(fi).entry, st2))
+            else:
+                nn = cfg_of(f).node_of(n)
+                if nn is None:
+                    return None
+                out.append((f, b[1], nn, st2))
+        return out
+
+    def resolve_callee(self, fi: FuncInfo, call: ast.Call) -> list[FuncInfo]:
+        li = fi.module.local_imports(fi.node)
+        selfname = fi.params[0] if fi.params and fi.cls is not None else None
+        try:
+            return [g for g in self.eff._resolve_call(fi, call, li, selfname) if g.name not in ("__init__", "__new__")]
+        except Exception:
+            return []
+
+    # -- guard atoms -------------------------------------------------------
+    def atoms(self, fi: FuncInfo, node) -> list[Atom]:
+        """structured canonical atoms that hold whenever `node` is evaluated: the dominating test edges (plain and with
+        local aliases expanded, boolean flags `ok = a <= b` replaced by the condition they hold), plus - for the site
+        currently being discharged - the conditions of the conditional expressions / short-circuit operands it sits in."""
+        key = (fi.fq, node.id)
+        if key not in self._atoms:
+            cfg = cfg_of(fi)
+            out: list[Atom] = []
+            for tn, label in cfg.guards(node):
+                if tn.kind != "test":
+                    continue
+                out.extend(self._atoms_of(fi, tn.ast, label == "T", tn, label))
+            self._atoms[key] = out
+        res = self._atoms[key]
+        sa = self.site_ast
+        if sa is not None and node.ast is not None and any(x is sa for x in ast.walk(node.ast)):
+            res = res + self._expr_atoms(fi, node, sa)
+        return res
+
+    def _atoms_of(self, fi: FuncInfo, cond: ast.AST, truth: bool, tn, label: str) -> list[Atom]:
+        al = self.al(fi)
+        forms = [cond]
+        names = set(astq.names_in(cond))
+        try:
+            ex = al.expand(cond, tn)
+            if norm(ex) != norm(cond):
+                forms.append(ex)
+                names |= astq.names_in(ex)
+        except Exception:
+            pass
+        out: list[Atom] = []
+        for f in forms:
+            for op, a, b, tr in satoms(f, truth):
+                out.append(Atom(op, a, b, tr, tn, label, frozenset(names)))
+                # a boolean flag: `fits = size <= limit` ... `if fits`
+                if op == "truthy" and isinstance(a, ast.Name):
+                    defs = list(self.rd(fi).reaching(tn, a.id))
+                    if len(defs) == 1 and defs[0].kind == "assign" and defs[0].index is None and isinstance(defs[0].value, (ast.Compare, ast.BoolOp, ast.UnaryOp)) and defs[0].node is not None:
+                        fv = defs[0].value
+                        fn = set(astq.names_in(fv))
+                        if self._unchanged_between(fi, fn, defs[0].node, tn):
+                            for c, ctruth in _conjuncts(fv, tr):
+                                for op2, a2, b2, tr2 in satoms(c, ctruth):
+                                    out.append(Atom(op2, a2, b2, tr2, tn, label, frozenset(names | fn)))
+        return out
+
+    def _expr_atoms(self, fi: FuncInfo, node, site: ast.AST) -> list[Atom]:
+        out: list[Atom] = []
+        child = site
+        cur = getattr(site, "_parent", None)
+        while cur is not None and child is not node.ast:
+            if isinstance(cur, ast.IfExp) and child is not cur.test:
+                for c, ctruth in _conjuncts(cur.test, child is cur.body):
+                    out.extend(self._atoms_of(fi, c, ctruth, node, "expr"))
+            elif isinstance(cur, ast.BoolOp):
+                i = next((k for k, v in enumerate(cur.values) if v is child), 0)
+                for v in cur.values[:i]:
+                    for c, ctruth in _conjuncts(v, isinstance(cur.op, ast.And)):
+                        out.extend(self._atoms_of(fi, c, ctruth, node, "expr"))
+            child, cur = cur, getattr(cur, "_parent", None)
+        return out
+
+    def _unchanged_between(self, fi: FuncInfo, names: set[str], a_node, b_node) -> bool:
+        """no name of `names` is rebound on a path a -> b that does not pass a again."""
+        cfg = cfg_of(fi)
+        starts = [s for s, _ in a_node.succs if s is not a_node]
+        if not starts:
+            return True
+        r1 = cfg.reach(starts, avoid_nodes=[a_node])
+        gen = self.rd(fi).gen
+        for n in cfg.nodes:
+            if n.id not in r1 or n is a_node:
+                continue
+            if any(d.name in names for d in gen.get(n.id, [])):
+                if n is b_node:
+                    continue  # a walrus in b itself is evaluated with b
+                succs = [s for s, _ in n.succs if s is not a_node]
+                if succs and b_node.id in cfg.reach(succs, avoid_nodes=[a_node]):
+                    return False
+        return True
+
+    def fresh(self, fi: FuncInfo, at: Atom, use) -> bool:
+        """no name the atom mentions is rebound on a path test-edge -> use that does not re-evaluate the test."""
+        cfg = cfg_of(fi)
+        tn = at.test
+        if at.label == "expr":
+            return True  # evaluated within the same expression as the use
+        starts = [s for s, l in tn.succs if l == at.label and s is not tn]
+        if not starts:
+            return True
+        r1 = cfg.reach(starts, avoid_nodes=[tn])
+        gen = self.rd(fi).gen
+        for n in cfg.nodes:
+            if n.id not in r1 or n is tn:
+                continue
+            if any(d.name in at.names for d in gen.get(n.id, [])):
+                succs = [s for s, _ in n.succs if s is not tn]
+                if succs and use.id in cfg.reach(succs, avoid_nodes=[tn]):
+                    return False
+        return True
+
+    def keys(self, fi: FuncInfo, e: ast.AST, node) -> set[str]:
+        ks = {norm(e)}
+        try:
+            ks.add(norm(self.al(fi).expand(e, node)))
+        except Exception:
+            pass
+        return ks
+
+    def holds(self, fi: FuncInfo, node, pred: t.Callable[[Atom], bool]) -> Atom | None:
+        for at in self.atoms(fi, node):
+            if pred(at) and self.fresh(fi, at, node):
+                return at
+        return None
+
+    # -- regex behind a match object ---------------------------------------
+    def fold_regex(self, fi: FuncInfo, e: ast.AST) -> RegexConst | None:
+        d = dotted(e)
+        if not d:
+            return None
+        try:
+            v = self.folder.name(fi.module, d)
+        except Exception:
+            return None
+        return v if isinstance(v, RegexConst) else None
+
+    def regex_of_match(self, fi: FuncInfo, e: ast.AST, node, st: St = St()) -> RegexConst | None:
+        """the regex whose match object e is (all reaching definitions agree), through callback parameters of R.sub."""
+        if isinstance(e, ast.NamedExpr):
+            e = e.value
+        if isinstance(e, ast.Call) and isinstance(e.func, ast.Attribute) and e.func.attr in ("match", "search", "fullmatch"):
+            return self.fold_regex(fi, e.func.value)
+        if not isinstance(e, ast.Name) or node is None:
+            return None
+        found: list[RegexConst] = []
+        for d in self.rd(fi).reaching(node, e.id):
+            if d.kind in ("assign", "walrus") and d.index is None and d.value is not None:
+                r = self.regex_of_match(fi, d.value, d.node, st)
+            elif d.kind == "param":
+                r = None
+                cal = self.callers(fi)
+                rs = []
+                for f, n, kind in cal:
+                    if kind == "callback" and isinstance(n, ast.Call) and isinstance(n.func, ast.Attribute) and n.func.attr in ("sub", "subn"):
+                        rs.append(self.fold_regex(f, n.func.value))
+                    else:
+                        rs.append(None)
+                if rs and all(x is not None and x.pattern == rs[0].pattern and x.flags == rs[0].flags for x in rs):
+                    r = rs[0]
+            else:
+                r = None
+            if r is None:
+                return None
+            found.append(r)
+        if found and all(x.pattern == found[0].pattern and x.flags == found[0].flags for x in found):
+            return found[0]
+        return None
+
+    # -- lower bound of len(value) ------------------------------------------
+    def minlen(self, fi: FuncInfo, e: ast.AST | None, node, path: tuple = (), st: St = St()) -> int:
+        """lower bound of len(<e projected by path>) at CFG node `node` of fi (0 = unknown).
+        path items: ('elem', i) | ('any',) | ('key',) | ('val',); projections assume the element exists."""
+        if e is None:
+            return 0
+        key = (fi.fq, ("n:" + e.id) if isinstance(e, ast.Name) else id(e), node.id if node is not None else -1, path, tuple(id(c[1]) for c in st.cs))
+        if key in st.seen:
+            return INF  # inductive: a cyclic definition cannot lower the bound established by the base cases
+        if len(st.seen) > 400:
+            return 0
+        st = st._replace(seen=st.seen | {key})
+        v = self._minlen(fi, e, node, path, st)
+        if not path and node is not None and not isinstance(e, ast.Constant):
+            g = self._guard_minlen(fi, e, node)
+            if g > v:
+                v = g
+        return v
+
+    def _minlen(self, fi, e, node, path, st) -> int:
+        ml = self.minlen
+        if isinstance(e, ast.Constant):
+            if e.value is None:
+                return INF  # None is not subscriptable: no IndexError can come from it (TypeError is out of model)
+            if not path:
+                return len(e.value) if isinstance(e.value, (str, bytes, tuple)) else 0
+            return 0
+        if isinstance(e, ast.NamedExpr):
+            return ml(fi, e.value, node, path, st)
+        if isinstance(e, (ast.Tuple, ast.List, ast.Set)):
+            plain = [x for x in e.elts if not isinstance(x, ast.Starred)]
+            if not path:
+                return len(plain)
+            h, rest = path[0], path[1:]
+            if h[0] == "elem" and isinstance(e, (ast.Tuple, ast.List)):
+                i = h[1]
+                seg = e.elts[: i + 1] if i >= 0 else e.elts[i:]
+                if -len(e.elts) <= i < len(e.elts) and not any(isinstance(x, ast.Starred) for x in seg):
+                    return ml(fi, e.elts[i], node, rest, st)
+            if h[0] in ("elem", "any"):
+                vals = [ml(fi, x.value, node, path, st) if isinstance(x, ast.Starred) else ml(fi, x, node, rest, st) for x in e.elts]
+                return min(vals) if vals else INF
+            return 0
+        if isinstance(e, ast.Dict):
+            if not path:
+                return len([k for k in e.keys if k is not None])
+            h, rest = path[0], path[1:]
+            if h[0] in ("key", "val", "any"):  # iterating a dict yields its keys
+                vals = []
+                for k, v in zip(e.keys, e.values):
+                    if k is None:
+                        vals.append(ml(fi, v, node, path, st))
+                    else:
+                        vals.append(ml(fi, v if h[0] == "val" else k, node, rest, st))
+                return min(vals) if vals else INF
+            return 0
+        if isinstance(e, (ast.ListComp, ast.SetComp, ast.GeneratorExp)):
+            if path and path[0][0] in ("any", "elem"):
+                return ml(fi, e.elt, node, path[1:], st)
+            return 0
+        if isinstance(e, ast.DictComp):
+            if path and path[0][0] in ("key", "any"):
+                return ml(fi, e.key, node, path[1:], st)
+            if path and path[0][0] == "val":
+                return ml(fi, e.value, node, path[1:], st)
+            return 0
+        if isinstance(e, ast.IfExp):
+            return min(ml(fi, e.body, node, path, st), ml(fi, e.orelse, node, path, st))
+        if isinstance(e, ast.BoolOp):
+            vals = []
+            for i, v in enumerate(e.values):
+                x = ml(fi, v, node, path, st)
+                if isinstance(e.op, ast.Or) and i < len(e.values) - 1 and not path:
+                    x = max(x, 1)  # a non-final operand of `or` is the result only when truthy
+                elif isinstance(e.op, ast.And) and i < len(e.values) - 1:
+                    x = 0
+                vals.append(x)
+            return min(vals)
+        if isinstance(e, ast.JoinedStr):
+            if path:
+                return 0
+            return sum(len(v.value) for v in e.values if isinstance(v, ast.Constant) and isinstance(v.value, str))
+        if isinstance(e, ast.BinOp) and isinstance(e.op, ast.Add):
+            a, b = ml(fi, e.left, node, path, st), ml(fi, e.right, node, path, st)
+            return min(a, b) if path else min(INF, a + b)
+        if isinstance(e, ast.Name):
+            return self._minlen_name(fi, e, node, path, st)
+        if isinstance(e, ast.Attribute):
+            return self._minlen_attr(fi, e, node, path, st)
+        if isinstance(e, ast.Subscript):
+            if isinstance(e.slice, ast.Slice):
+                sl = e.slice
+                if path:
+                    p2 = tuple(("any",) if (i == 0 and h[0] == "elem") else h for i, h in enumerate(path))
+                    return ml(fi, e.value, node, p2, st)
+                if sl.step is None and (sl.lower is None or const_int(sl.lower) == 0) and sl.upper is not None:
+                    hi = self.int_lb(fi, sl.upper, node, st)
+                    if hi is not None and hi >= 0:
+                        return min(ml(fi, e.value, node, (), st), hi)
+                return 0
+            i = const_int(e.slice)
+            if i is not None:
+                return ml(fi, e.value, node, (("elem", i),) + path, st)
+            return 0
+        if isinstance(e, ast.Call):
+            return self._minlen_call(fi, e, node, path, st)
+        return 0
+
+    def _comp_binding(self, fi: FuncInfo, e: ast.Name):
+        g = bound_in_enclosing_comp(e, stop=fi.node)
+        if g is None:
+            return None
+        if isinstance(g.target, ast.Name):
+            return g, (("any",),)
+        if isinstance(g.target, (ast.Tuple, ast.List)):
+            for i, x in enumerate(g.target.elts):
+                if isinstance(x, ast.Name) and x.id == e.id and not any(isinstance(y, ast.Starred) for y in g.target.elts):
+                    return g, (("any",), ("elem", i))
+        return g, None
+
+    def _minlen_name(self, fi, e: ast.Name, node, path, st) -> int:
+        cb = self._comp_binding(fi, e) if hasattr(e, "_parent") else None
+        if cb is not None:
+            g, sub = cb
+            return self.minlen(fi, g.iter, node, sub + path, st) if sub is not None else 0
+        if node is None:
+            return 0
+        defs = self.rd(fi).reaching(node, e.id)
+        if not defs:
+            try:
+                v = self.folder.name(fi.module, e.id)
+            except Exception:
+                return 0
+            if not path and isinstance(v, (str, bytes, tuple, list, frozenset, set, dict)):
+                return len(v)
+            return 0
+        vals = []
+        for d in defs:
+            vals.append(self._minlen_def(fi, d, path, st))
+        res = min(vals)
+        if path and res > 0:
+            res = min(res, self._mutations(fi, e.id, path, st))
+        return res
+
+    def _minlen_def(self, fi, d, path, st) -> int:
+        if d.kind == "param":
+            kwa = fi.node.args.kwarg  # type: ignore[attr-defined]
+            if kwa is not None and kwa.arg == d.name:
+                return self._minlen_kwargs(fi, path, st)
+            srcs = self.param_sources(fi, d.name, st)
+            if srcs is None:
+                return self._annotation_arity(fi, d.name) if not path else 0
+            return min(self.minlen(f, x, n, path, s2) for f, x, n, s2 in srcs)
+        if d.kind in ("assign", "walrus"):
+            if d.value is None:
+                return 0
+            if d.index is None:
+                return self.minlen(fi, d.value, d.node, path, st)
+            return 0
+        if d.kind == "unpack":
+            if d.value is None or d.index is None:
+                return 0
+            tg = getattr(d.stmt, "targets", [None])[0] if isinstance(d.stmt, ast.Assign) else None
+            if isinstance(tg, (ast.Tuple, ast.List)) and any(isinstance(x, ast.Starred) for x in tg.elts):
+                return 0
+            return self.minlen(fi, d.value, d.node, (("elem", d.index),) + path, st)
+        if d.kind == "for":
+            if d.value is None:
+                return 0
+            tg = getattr(d.stmt, "target", None)
+            if isinstance(tg, (ast.Tuple, ast.List)) and any(isinstance(x, ast.Starred) for x in tg.elts):
+                return 0
+            sub = (("any",),) if d.index is None else (("any",), ("elem", d.index))
+            return self.minlen(fi, d.value, d.node, sub + path, st)
+        if d.kind == "aug":
+            if path and d.value is not None:
+                return self.minlen(fi, d.value, d.node, path, st)
+            return 0
+        if d.kind == "del":
+            return INF
+        return 0
+
+    def _minlen_kwargs(self, fi: FuncInfo, path, st: St) -> int:
+        """keys of a **kwargs parameter: the keyword names written at the call sites (non-empty identifiers), or the
+        keys of a dict passed with ** there."""
+        if not path or path[0] != ("key",) or fi.fq in self.entry_fqs or st.hops >= 5:
+            return 0
+        cal = self.callers(fi)
+        if not cal:
+            return 0
+        a = fi.node.args  # type: ignore[attr-defined]
+        named = {x.arg for x in a.posonlyargs + a.args + a.kwonlyargs}
+        vals = [INF]
+        for f, n, kind in cal:
+            if kind != "call" or not isinstance(n, ast.Call):
+                return 0
+            nn = cfg_of(f).node_of(n)
+            for kw in n.keywords:
+                if kw.arg is None:
+                    vals.append(self.minlen(f, kw.value, nn, path, St((), st.seen, st.hops + 1)))
+                elif kw.arg not in named:
+                    vals.append(len(kw.arg) if len(path) == 1 else 0)
+        return min(vals)
+
+    def _annotation_arity(self, fi: FuncInfo, pname: str) -> int:
+        """a parameter annotated with a fixed-arity tuple type (optionally `| None`): its arity."""
+        a = fi.node.args  # type: ignore[attr-defined]
+        for x in a.posonlyargs + a.args + a.kwonlyargs:
+            if x.arg == pname and x.annotation is not None:
+                ann = x.annotation
+                if isinstance(ann, ast.Constant) and isinstance(ann.value, str):
+                    try:
+                        ann = ast.parse(ann.value, mode="eval").body
+                    except SyntaxError:
+                        return 0
+                alts = []
+
+                def split(n):
+                    if isinstance(n, ast.BinOp) and isinstance(n.op, ast.BitOr):
+                        split(n.left)
+                        split(n.right)
+                    elif isinstance(n, ast.Subscript) and (dotted(n.value) or "").rsplit(".", 1)[-1] == "Optional":
+                        split(n.slice)
+                        alts.append(ast.Constant(None))
+                    else:
+                        alts.append(n)
+
+                split(ann)
+                ar = []
+                for n in alts:
+                    if isinstance(n, ast.Constant) and n.value is None:
+                        continue
+                    if isinstance(n, ast.Subscript) and (dotted(n.value) or "").rsplit(".", 1)[-1] in ("tuple", "Tuple"):
+                        elts = n.slice.elts if isinstance(n.slice, ast.Tuple) else [n.slice]
+                        if any(isinstance(x2, ast.Constant) and x2.value is Ellipsis for x2 in elts):
+                            return 0
+                        ar.append(len(elts))
+                    else:
+                        return 0
+                return min(ar) if ar else 0
+        return 0
+
+    def _minlen_attr(self, fi, e: ast.Attribute, node, path, st) -> int:
+        if astq.is_self_attr(e, None, fi.params[0] if fi.params else "self") and fi.cls is not None:
+            vals = []
+            classes = [k for k in self.repo.mro(fi.cls) if isinstance(k, ClassInfo)] + list(self.repo.subclasses(fi.cls.fq))
+            seen_c = set()
+            for k in classes:
+                if k.fq in seen_c:
+                    continue
+                seen_c.add(k.fq)
+                for m in k.methods.values():
+                    sn = m.params[0] if m.params else "self"
+                    for s_ in walk_no_nested(m.node):
+                        if isinstance(s_, (ast.Assign, ast.AnnAssign)) and getattr(s_, "value", None) is not None:
+                            tgs = s_.targets if isinstance(s_, ast.Assign) else [s_.target]
+                            if any(astq.is_self_attr(tg, e.attr, sn) for tg in tgs):
+                                vals.append(self.minlen(m, s_.value, cfg_of(m).node_of(s_), path, St((), st.seen, st.hops + 1)))
+                            elif any(isinstance(tg, (ast.Tuple, ast.List)) and any(astq.is_self_attr(x, e.attr, sn) for x in ast.walk(tg)) for tg in tgs):
+                                vals.append(0)
+                        elif isinstance(s_, ast.AugAssign) and astq.is_self_attr(s_.target, e.attr, sn):
+                            vals.append(0)
+            if vals:
+                return min(vals)
+        return 0
+
+    def _ret_minlen(self, fi, call, node, g: FuncInfo, path, st) -> int:
+        if any(isinstance(x, (ast.Yield, ast.YieldFrom)) for x in walk_no_nested(g.node)):
+            return 0
+        rets = astq.returns_of(g.node)
+        st2 = st._replace(cs=st.cs + ((fi, call, g),))
+        if len(st2.cs) > 3:
+            return 0
+        vals = []
+        for r in rets:
+            if r.value is None:
+                vals.append(INF)
+            else:
+                vals.append(self.minlen(g, r.value, cfg_of(g).node_of(r), path, st2))
+        # falling off the end returns None (never raises IndexError)
+        return min(vals) if vals else INF
+
+    def _minlen_call(self, fi, e: ast.Call, node, path, st) -> int:
+        ml = self.minlen
+        f = e.func
+        d = dotted(f)
+        li = fi.module.local_imports(fi.node)
+        fq = self.repo.resolve(fi.module, d, li) if d else None
+        last = (d or "").rsplit(".", 1)[-1]
+        if fq in ("builtins.sorted", "builtins.list", "builtins.tuple", "builtins.reversed", "builtins.set", "builtins.frozenset") and len(e.args) >= 1:
+            p2 = tuple(("any",) if (i == 0 and h[0] == "elem") else h for i, h in enumerate(path))
+            if fq in ("builtins.set", "builtins.frozenset") and not path:
+                return min(1, ml(fi, e.args[0], node, (), st))
+            return ml(fi, e.args[0], node, p2, st)
+        if fq == "builtins.enumerate" and e.args:
+            if path and path[0][0] in ("any", "elem"):
+                if len(path) == 1:
+                    return 2
+                if path[1] == ("elem", 1):
+                    return ml(fi, e.args[0], node, (("any",),) + path[2:], st)
+                return 0
+            return ml(fi, e.args[0], node, (), st) if not path else 0
+        if last == "cast" and len(e.args) == 2:
+            return ml(fi, e.args[1], node, path, st)
+        if fq in ("urllib.parse.unquote", "urllib.parse.unquote_plus") and e.args and not path:
+            err = astq.arg_or_kw(e, 2, "errors")
+            if err is None or astq.const_str(err) in ("replace", "backslashreplace", "surrogateescape") or astq.const_str(err) in self.eff.handlers_ok - {"ignore"}:
+                return min(1, ml(fi, e.args[0], node, (), st))
+            return 0
+        if fq in ("os.path.split", "os.path.splitext", "posixpath.split", "posixpath.splitext"):
+            return 2 if not path else 0
+        if isinstance(f, ast.Attribute):
+            m = f.attr
+            recv = f.value
+            rx = self.fold_regex(fi, recv)
+            if rx is None:
+                if m in _CASE_METHODS and not e.args:
+                    return ml(fi, recv, node, path, st) if not path else 0
+                if m == "replace" and len(e.args) >= 2 and not path and const_text(e.args[1]):
+                    return min(1, ml(fi, recv, node, (), st))  # replacing by a non-empty text keeps a non-empty text non-empty
+                if m in ("partition", "rpartition"):
+                    return 3 if not path else 0
+                if m in ("split", "rsplit"):
+                    if path:
+                        return 0
+                    sep = const_text(e.args[0]) if e.args else None
+                    if sep and sep in self.contained(fi, recv, node, st):
+                        return 2
+                    return 1
+                if m == "items" and not e.args and len(path) >= 2 and path[0][0] in ("any", "elem") and path[1][0] == "elem" and path[1][1] in (0, 1):
+                    return ml(fi, recv, node, (("key",) if path[1][1] == 0 else ("val",),) + path[2:], st)
+                if m == "items" and not e.args and len(path) == 1 and path[0][0] in ("any", "elem"):
+                    return 2
+                if m == "keys" and not e.args and path and path[0][0] in ("any", "elem"):
+                    return ml(fi, recv, node, (("key",),) + path[1:], st)
+                if m == "values" and not e.args and path and path[0][0] in ("any", "elem"):
+                    return ml(fi, recv, node, (("val",),) + path[1:], st)
+                if m == "copy" and not e.args:
+                    return ml(fi, recv, node, path, st)
+                if m in ("group", "groups"):
+                    r = self.regex_of_match(fi, recv, node, st)
+                    if r is not None:
+                        try:
+                            if m == "group" and not path:
+                                k = const_int(e.args[0]) if e.args else 0
+                                if k is None or len(e.args) > 1:
+                                    return 0
+                                return width(r)[0] if k == 0 else group_width(r, k)[0]
+                            if m == "groups" and path and path[0][0] == "elem" and len(path) == 1 and path[0][1] >= 0:
+                                return group_width(r, path[0][1] + 1)[0]
+                            if m == "groups" and not path:
+                                return r.parsed().state.groups - 1
+                        except Exception:
+                            return 0
+                    return 0
+            else:
+                if m == "split" and not path and e.args:
+                    try:
+                        plain = not _has_anchor(rx)
+                    except Exception:
+                        plain = False
+                    if plain:
+                        for c in self.contained(fi, e.args[0], node, st):
+                            try:
+                                if isinstance(c, type(rx.pattern)) and re.compile(rx.pattern, rx.flags).fullmatch(c):
+                                    return 2
+                            except Exception:
+                                pass
+                    return 1
+                return 0
+        if isinstance(f, (ast.Name, ast.Attribute)) or d is None:
+            gs = self.resolve_callee(fi, e)
+            if gs:
+                return min(self._ret_minlen(fi, e, node, g, path, st) for g in gs)
+        return 0
+
+    def _mutations(self, fi: FuncInfo, name: str, path, st) -> int:
+        """elements / keys added to the container bound to local `name` anywhere in fi (flow-insensitive)."""
+        h, rest = path[0], path[1:]
+        vals = [INF]
+        cfg = cfg_of(fi)
+        # what the local is bound to decides what iterating it yields
+        binds = [v for _, v in astq.assigns_to(fi.node, name) if v is not None]
+        is_dict = bool(binds) and all(isinstance(v, (ast.Dict, ast.DictComp)) or (isinstance(v, ast.Call) and dotted(v.func) == "dict") for v in binds)
+        is_list = bool(binds) and all(isinstance(v, (ast.List, ast.ListComp)) or (isinstance(v, ast.Call) and dotted(v.func) == "list") for v in binds)
+        for n in walk_no_nested(fi.node):
+            if isinstance(n, ast.Call) and isinstance(n.func, ast.Attribute) and isinstance(n.func.value, ast.Name) and n.func.value.id == name:
+                m = n.func.attr
+                nn = cfg.node_of(n)
+                if m in ("append", "add") and len(n.args) == 1:
+                    vals.append(self.minlen(fi, n.args[0], nn, rest, st) if h[0] in ("any", "elem") else 0)
+                elif m == "insert" and len(n.args) == 2:
+                    vals.append(self.minlen(fi, n.args[1], nn, rest, st) if h[0] in ("any", "elem") else 0)
+                elif m in ("extend", "update") and len(n.args) == 1 and not n.keywords:
+                    p2 = (("any",),) + rest if h[0] == "elem" else path
+                    vals.append(self.minlen(fi, n.args[0], nn, p2, st))
+                elif m == "setdefault" and len(n.args) == 2:
+                    if h[0] == "key" or (is_dict and h[0] != "val"):
+                        vals.append(self.minlen(fi, n.args[0], nn, rest, st))
+                    elif h[0] == "val":
+                        vals.append(self.minlen(fi, n.args[1], nn, rest, st))
+                    else:
+                        vals.append(min(self.minlen(fi, n.args[0], nn, rest, st), self.minlen(fi, n.args[1], nn, rest, st)))
+                elif m in _NO_NEW_ELEMENTS:
+                    pass
+                else:
+                    vals.append(0)
+            elif isinstance(n, ast.Assign):
+                for tg in n.targets:
+                    if isinstance(tg, ast.Subscript) and isinstance(tg.value, ast.Name) and tg.value.id == name:
+                        nn = cfg.node_of(n)
+                        if isinstance(tg.slice, ast.Slice):
+                            vals.append(0)
+                        elif h[0] == "key" or (is_dict and h[0] != "val"):
+                            vals.append(self.minlen(fi, tg.slice, nn, rest, st))
+                        elif h[0] == "val" or is_list:
+                            vals.append(self.minlen(fi, n.value, nn, rest, st))
+                        else:
+                            # iterating the container: a dict yields its keys, a list its items - the type is not known
+                            vals.append(min(self.minlen(fi, tg.slice, nn, rest, st), self.minlen(fi, n.value, nn, rest, st)))
+            elif isinstance(n, ast.AugAssign) and isinstance(n.target, ast.Subscript) and isinstance(n.target.value, ast.Name) and n.target.value.id == name:
+                if h[0] != "key":
+                    vals.append(0)
+            elif isinstance(n, ast.Call):
+                # the container handed to a package function that stores into its parameter
+                for i, a in enumerate(n.args):
+                    if isinstance(a, ast.Name) and a.id == name:
+                        for g in self.resolve_callee(fi, n):
+                            if self._param_mutated(g, n, i):
+                                vals.append(0)
+        return min(vals)
+
+    def _param_mutated(self, g: FuncInfo, call: ast.Call, argi: int) -> bool:
+        a = g.node.args  # type: ignore[attr-defined]
+        pos = [x.arg for x in a.posonlyargs + a.args]
+        off = 1 if (g.cls is not None and not any(d.rsplit(".", 1)[-1] == "staticmethod" for d in g.decorators)) else 0
+        if argi + off >= len(pos):
+            return True
+        p = pos[argi + off]
+        for n in walk_no_nested(g.node):
+            if isinstance(n, ast.Call) and isinstance(n.func, ast.Attribute) and isinstance(n.func.value, ast.Name) and n.func.value.id == p and n.func.attr not in _NO_NEW_ELEMENTS and n.func.attr in ("append", "add", "insert", "extend", "update", "setdefault", "__setitem__"):
+                return True
+            if isinstance(n, (ast.Assign, ast.AugAssign)):
+                for tg in (n.targets if isinstance(n, ast.Assign) else [n.target]):
+                    if isinstance(tg, ast.Subscript) and isinstance(tg.value, ast.Name) and tg.value.id == p:
+                        return True
+        return False
+
+    def _guard_minlen(self, fi: FuncInfo, e: ast.AST, node) -> int:
+        ks = self.keys(fi, e, node)
+
+        def is_len(x):
+            return isinstance(x, ast.Call) and dotted(x.func) == "len" and len(x.args) == 1 and norm(x.args[0]) in ks
+
+        best = 0
+        for at in self.atoms(fi, node):
+            v = 0
+            if at.op == "truthy" and at.truth:
+                if norm(at.a) in ks:
+                    v = 1
+                elif isinstance(at.a, ast.Call) and isinstance(at.a.func, ast.Attribute) and at.a.func.attr in ("startswith", "endswith") and norm(at.a.func.value) in ks and len(at.a.args) == 1 and const_text(at.a.args[0]):
+                    v = len(const_text(at.a.args[0]))
+            elif at.op == "lt":
+                if is_len(at.a) and const_int(at.b) is not None and not at.truth:
+                    v = const_int(at.b)
+                elif const_int(at.a) is not None and is_len(at.b) and at.truth:
+                    v = const_int(at.a) + 1
+            elif at.op == "eq":
+                for x, y in ((at.a, at.b), (at.b, at.a)):
+                    if is_len(x) and const_int(y) is not None and at.truth:
+                        v = max(v, const_int(y))
+                    c = const_text(y)
+                    if c is not None and norm(x) in ks:
+                        if at.truth:
+                            v = max(v, len(c))
+                        elif len(c) == 0:
+                            v = max(v, 1)
+                    if c and at.truth and isinstance(x, ast.Subscript) and isinstance(x.slice, ast.Slice) and norm(x.value) in ks:
+                        v = max(v, len(c))
+            elif at.op == "in" and at.truth and norm(at.b) in ks:
+                c = const_text(at.a)
+                v = 1 if (c is None or len(c) >= 1) else 0  # membership / non-empty substring: the container is not empty
+            if v > best and self.fresh(fi, at, node):
+                best = v
+        return best
+
+    # -- lower bound of an int ------------------------------------------------
+    def int_lb(self, fi: FuncInfo, e: ast.AST | None, node, st: St = St()) -> int | None:
+        if e is None:
+            return None
+        key = ("int", fi.fq, ("n:" + e.id) if isinstance(e, ast.Name) else id(e), node.id if node is not None else -1, tuple(id(c[1]) for c in st.cs))
+        if key in st.seen:
+            return INF
+        if len(st.seen) > 400:
+            return None
+        st = st._replace(seen=st.seen | {key})
+        v = self._int_lb(fi, e, node, st)
+        if node is not None and isinstance(e, (ast.Name, ast.Attribute, ast.NamedExpr)):
+            v = self._guard_int(fi, _unwalrus(e), node, v)
+        return v
+
+    def _int_lb(self, fi, e, node, st) -> int | None:
+        c = const_int(e)
+        if c is not None:
+            return c
+        if isinstance(e, ast.NamedExpr):
+            return self.int_lb(fi, e.value, node, st)
+        if isinstance(e, ast.BinOp) and isinstance(e.op, (ast.Add, ast.Sub)):
+            a = self.int_lb(fi, e.left, node, st)
+            if isinstance(e.op, ast.Add):
+                b = self.int_lb(fi, e.right, node, st)
+                return None if a is None or b is None else min(INF, a + b)
+            cr = const_int(e.right)
+            return None if a is None or cr is None else (a - cr if a < INF else INF)
+        if isinstance(e, ast.IfExp):
+            a, b = self.int_lb(fi, e.body, node, st), self.int_lb(fi, e.orelse, node, st)
+            return None if a is None or b is None else min(a, b)
+        if isinstance(e, ast.Call):
+            d = dotted(e.func)
+            if d == "len" and len(e.args) == 1:
+                return self.minlen(fi, e.args[0], node, (), St(st.cs, frozenset(), st.hops))
+            if d in ("max",) and e.args and not e.keywords:
+                ks = [self.int_lb(fi, a, node, st) for a in e.args]
+                ks = [k for k in ks if k is not None]
+                return max(ks) if ks else None
+            if d in ("min",) and e.args and not e.keywords:
+                ks = [self.int_lb(fi, a, node, st) for a in e.args]
+                return None if any(k is None for k in ks) else min(ks)
+            if isinstance(e.func, ast.Attribute):
+                m = e.func.attr
+                if m in ("find", "rfind"):
+                    return -1
+                if m in ("index", "rindex", "count"):
+                    return 0
+                if m in ("start", "end") and not e.args and self.regex_of_match(fi, e.func.value, node, st) is not None:
+                    return 0
+            gs = self.resolve_callee(fi, e)
+            if gs:
+                vals = []
+                for g in gs:
+                    if any(isinstance(x, (ast.Yield, ast.YieldFrom)) for x in walk_no_nested(g.node)):
+                        return None
+                    st2 = st._replace(cs=st.cs + ((fi, e, g),))
+                    if len(st2.cs) > 3:
+                        return None
+                    rets = astq.returns_of(g.node)
+                    if not rets:
+                        return None
+                    for r in rets:
+                        vals.append(self.int_lb(g, r.value, cfg_of(g).node_of(r), st2) if r.value is not None else None)
+                return None if any(v is None for v in vals) else min(vals)
+            return None
+        if isinstance(e, ast.Name):
+            if node is None:
+                return None
+            defs = self.rd(fi).reaching(node, e.id)
+            if not defs:
+                return None
+            vals = []
+            for d_ in defs:
+                if d_.kind in ("assign", "walrus") and d_.index is None and d_.value is not None:
+                    vals.append(self.int_lb(fi, d_.value, d_.node, st))
+                elif d_.kind == "aug" and isinstance(d_.stmt, ast.AugAssign) and isinstance(d_.stmt.op, ast.Add):
+                    inc = self.int_lb(fi, d_.value, d_.node, st)
+                    prev = self.int_lb(fi, ast.Name(e.id, ast.Load()), d_.node, st) if inc is not None and inc >= 0 else None
+                    vals.append(None if prev is None or inc is None else (INF if prev >= INF else prev + inc))
+                elif d_.kind == "param":
+                    srcs = self.param_sources(fi, d_.name, st)
+                    if srcs is None:
+                        vals.append(None)
+                    else:
+                        for f2, x, n2, s2 in srcs:
+                            vals.append(self.int_lb(f2, x, n2, s2))
+                else:
+                    vals.append(None)
+            return None if any(v is None for v in vals) else min(vals)
+        return None
+
+    def _guard_int(self, fi, e, node, v: int | None) -> int | None:
+        ks = self.keys(fi, e, node)
+        best = v
+        for at in self.atoms(fi, node):
+            cand = None
+            if at.op == "lt":
+                if norm(at.a) in ks and const_int(at.b) is not None and not at.truth:
+                    cand = const_int(at.b)
+                elif const_int(at.a) is not None and norm(at.b) in ks and at.truth:
+                    cand = const_int(at.a) + 1
+            elif at.op == "eq":
+                for x, y in ((at.a, at.b), (at.b, at.a)):
+                    if norm(x) in ks and const_int(y) is not None:
+                        if at.truth:
+                            cand = const_int(y)
+                        elif best is not None and best == const_int(y):
+                            cand = best + 1
+            if cand is not None and (best is None or cand > best) and self.fresh(fi, at, node):
+                best = cand
+        return best
+
+    # -- integers parsed from client text, without an upper bound ---------------------
+    def unbounded_client_int(self, fi: FuncInfo, e: ast.AST | None, node, st: St = St()) -> bool:
+        """e PROVABLY flows from a text -> int conversion (int(<text>), a package helper returning one) through
+        arithmetic, max(), attributes assigned from constructor parameters and parameter binding, and no upper bound is
+        established on the way (min() with a bounded operand, a dominating comparison with a bounded value).
+        Unknown origins answer False: this only ever adds a finding."""
+        if e is None:
+            return False
+        key = ("ub", fi.fq, ("n:" + e.id) if isinstance(e, ast.Name) else norm(e) if isinstance(e, ast.Attribute) else id(e), node.id if node is not None else -1, tuple(id(c[1]) for c in st.cs))
+        if key in st.seen or len(st.seen) > 300:
+            return False
+        st = st._replace(seen=st.seen | {key})
+        ub = self.unbounded_client_int
+        if isinstance(e, ast.Constant):
+            return False
+        if isinstance(e, ast.NamedExpr):
+            return ub(fi, e.value, node, st)
+        if isinstance(e, ast.IfExp):
+            return ub(fi, e.body, node, st) or ub(fi, e.orelse, node, st)
+        if isinstance(e, ast.BinOp) and isinstance(e.op, (ast.Add, ast.Sub, ast.Mult)):
+            return ub(fi, e.left, node, st) or ub(fi, e.right, node, st)
+        if isinstance(e, ast.Call):
+            d = dotted(e.func)
+            li = fi.module.local_imports(fi.node)
+            fq = self.repo.resolve(fi.module, d, li) if d else None
+            if fq == "builtins.int" and e.args and not isinstance(e.args[0], (ast.Constant, ast.BinOp)) and not (isinstance(e.args[0], ast.Call) and (dotted(e.args[0].func) or "").rsplit(".", 1)[-1] in ("len", "total_seconds", "time", "timestamp", "round", "floor")):
+                return True
+            if fq == "builtins.len":
+                return False
+            if fq == "builtins.max" and e.args and not e.keywords:
+                return any(ub(fi, a, node, st) for a in e.args)
+            if fq == "builtins.min" and e.args and not e.keywords:
+                return all(ub(fi, a, node, st) for a in e.args)
+            for g in self.resolve_callee(fi, e):
+                st2 = st._replace(cs=st.cs + ((fi, e, g),))
+                if len(st2.cs) > 4:
+                    continue
+                for r in astq.returns_of(g.node):
+                    if r.value is not None and ub(g, r.value, cfg_of(g).node_of(r), st2):
+                        return True
+            return False
+        if isinstance(e, (ast.Name, ast.Attribute)) and node is not None:
+            if self._upper_bounded(fi, e, node, st):
+                return False
+        if isinstance(e, ast.Name):
+            if node is None:
+                return False
+            for d_ in self.rd(fi).reaching(node, e.id):
+                if d_.kind in ("assign", "walrus") and d_.index is None and d_.value is not None:
+                    if ub(fi, d_.value, d_.node, st):
+                        return True
+                elif d_.kind == "aug" and d_.value is not None:
+                    if ub(fi, d_.value, d_.node, st) or ub(fi, ast.Name(e.id, ast.Load()), d_.node, st):
+                        return True
+                elif d_.kind == "param":
+                    srcs = self.param_sources(fi, d_.name, st)
+                    for f2, x, n2, s2 in srcs or []:
+                        if ub(f2, x, n2, s2):
+                            return True
+            return False
+        if isinstance(e, ast.Attribute) and fi.cls is not None and fi.params and astq.is_self_attr(e, None, fi.params[0]):
+            classes = [k for k in self.repo.mro(fi.cls) if isinstance(k, ClassInfo)] + list(self.repo.subclasses(fi.cls.fq))
+            for k in classes:
+                for m in k.methods.values():
+                    sn = m.params[0] if m.params else "self"
+                    for s_ in walk_no_nested(m.node):
+                        if isinstance(s_, (ast.Assign, ast.AnnAssign)) and getattr(s_, "value", None) is not None:
+                            tgs = s_.targets if isinstance(s_, ast.Assign) else [s_.target]
+                            if any(astq.is_self_attr(tg, e.attr, sn) for tg in tgs):
+                                if ub(m, s_.value, cfg_of(m).node_of(s_), St((), st.seen, st.hops + 1)):
+                                    return True
+            return False
+        return False
+
+    def _upper_bounded(self, fi: FuncInfo, e: ast.AST, node, st: St) -> bool:
+        ks = self.keys(fi, e, node)
+        for at in self.atoms(fi, node):
+            other = None
+            if at.op == "lt" and at.truth and norm(at.a) in ks:
+                other = at.b  # e < B
+            elif at.op == "lt" and not at.truth and norm(at.b) in ks:
+                other = at.a  # not (B < e)
+            elif at.op == "eq" and at.truth:
+                other = at.b if norm(at.a) in ks else at.a if norm(at.b) in ks else None
+            if other is not None and not self.unbounded_client_int(fi, other, at.test, st) and self.fresh(fi, at, node):
+                return True
+        return False
+
+    # -- constants known to occur inside a string ---------------------------------
+    def contained(self, fi: FuncInfo, e: ast.AST | None, node, st: St = St()) -> set:
+        """constant substrings c with `c in <e>` established (guards, reaching definitions, callers)."""
+        if e is None or node is None:
+            return set()
+        key = ("in", fi.fq, ("n:" + e.id) if isinstance(e, ast.Name) else id(e), node.id, tuple(id(c[1]) for c in st.cs))
+        if key in st.seen or len(st.seen) > 400:
+            return set()
+        st = st._replace(seen=st.seen | {key})
+        out: set = set()
+        ks = self.keys(fi, e, node)
+        for at in self.atoms(fi, node):
+            if at.op == "in" and at.truth and norm(at.b) in ks and const_text(at.a) and self.fresh(fi, at, node):
+                out.add(const_text(at.a))
+        if isinstance(e, ast.Call) and isinstance(e.func, ast.Attribute) and not e.args and not e.keywords:
+            inner = self.contained(fi, e.func.value, node, st)
+            if e.func.attr in _CASE_METHODS:
+                out |= {c for c in inner if c.lower() == c == c.upper()}
+            elif e.func.attr in ("strip", "lstrip", "rstrip"):
+                if self.stripped(fi, e.func.value, node):
+                    out |= inner
+                else:
+                    out |= {c for c in inner if c.strip() == c}
+        elif isinstance(e, ast.Name):
+            defs = self.rd(fi).reaching(node, e.id)
+            sets = []
+            for d_ in defs:
+                if d_.kind in ("assign", "walrus") and d_.index is None and d_.value is not None:
+                    sets.append(self.contained(fi, d_.value, d_.node, st))
+                elif d_.kind == "param":
+                    srcs = self.param_sources(fi, d_.name, st)
+                    if srcs is None:
+                        sets.append(set())
+                    else:
+                        for f2, x, n2, s2 in srcs:
+                            sets.append(self.contained(f2, x, n2, s2))
+                else:
+                    sets.append(set())
+            if sets:
+                out |= set.intersection(*sets)
+        return out
+
+    def stripped(self, fi: FuncInfo, e: ast.AST, node) -> bool:
+        """e's value is already the result of a no-argument strip() (so e.strip() == e)."""
+        if isinstance(e, ast.Call) and isinstance(e.func, ast.Attribute) and e.func.attr == "strip" and not e.args:
+            return True
+        if isinstance(e, ast.Name) and node is not None:
+            defs = self.rd(fi).reaching(node, e.id)
+            return bool(defs) and all(d_.kind in ("assign", "walrus") and d_.index is None and d_.value is not None and isinstance(d_.value, ast.Call) and isinstance(d_.value.func, ast.Attribute) and d_.value.func.attr == "strip" and not d_.value.args for d_ in defs)
+        return False
+
+    # -- dependence on parameters ---------------------------------------------------
+    def param_deps(self, fi: FuncInfo, e: ast.AST, node, _seen: frozenset = frozenset()) -> set[str]:
+        """parameters of fi that the value of e may depend on (data dependence through local definitions)."""
+        out: set[str] = set()
+        for n in ast.walk(e):
+            if isinstance(n, ast.Name) and isinstance(n.ctx, ast.Load):
+                if hasattr(n, "_parent") and bound_in_enclosing_comp(n, stop=fi.node) is not None:
+                    continue
+                defs = self.rd(fi).reaching(node, n.id) if node is not None else frozenset()
+                for d_ in defs:
+                    if d_.kind == "param":
+                        out.add(d_.name)
+                    elif d_.value is not None and d_.node is not None:
+                        k = (id(d_.value), d_.node.id)
+                        if k not in _seen:
+                            out |= self.param_deps(fi, d_.value, d_.node, _seen | {k})
+        return out
+
+
+def _has_anchor(rx: RegexConst) -> bool:
+    from .fold import sre_c
+
+    def rec(seq) -> bool:
+        for op, av in seq:
+            if op in (sre_c.AT, sre_c.ASSERT, sre_c.ASSERT_NOT, sre_c.GROUPREF, sre_c.GROUPREF_EXISTS):
+                return True
+            if op in (sre_c.MAX_REPEAT, sre_c.MIN_REPEAT) or (hasattr(sre_c, "POSSESSIVE_REPEAT") and op is sre_c.POSSESSIVE_REPEAT):
+                if rec(av[2]):
+                    return True
+            elif op is sre_c.SUBPATTERN:
+                if rec(av[3]):
+                    return True
+            elif op is sre_c.BRANCH:
+                if any(rec(b) for b in av[1]):
+                    return True
+            elif hasattr(sre_c, "ATOMIC_GROUP") and op is sre_c.ATOMIC_GROUP:
+                if rec(av):
+                    return True
+        return False
+
+    return rec(rx.parsed())
